@@ -11,6 +11,7 @@ package main
 
 import (
 	"context"
+	"crypto/x509"
 	"encoding/json"
 	"errors"
 	"fmt"
@@ -120,6 +121,11 @@ type cell struct {
 	Crit   int `json:"crit"`
 	// Prior 1: the same verifier instance (same collaborators) verified the all-valid signature of the same
 	// scheme and format immediately before; the judged verification must behave as on a fresh verifier.
+	// Prior 2: the same verifier instance first verified a signature with the same plugin / critical attributes
+	// while every collaborator gave its GOOD answer (anchor present, revocation OK, plugin installed in a recent
+	// version, success verdicts, attributes processed); then the collaborators switch to the cell's answers
+	// (store emptied or broken, certificate revoked, plugin downgraded / uninstalled / failing). Each
+	// verification must reflect what the collaborators answer to IT.
 	Prior int `json:"prior"`
 }
 
@@ -385,6 +391,40 @@ func (w *world) run(lv vt.Level, c cell) observation {
 			plug.VerifyCalls, plug.MetadataCalls = nil, 0
 		}
 	}
+	if c.Prior == 2 {
+		// phase 1: good answers everywhere
+		savedStores, savedErrs, savedRes := ts.Stores, ts.Errs, rv.Results
+		ts.Stores = map[string][]*x509.Certificate{storeType + ":s": {w.good.Root().Cert}}
+		ts.Errs = map[string]error{}
+		rv.Results = mocks.AllOK().Results
+		var savedPlug mocks.VerifyPlugin
+		var goodPlug *mocks.VerifyPlugin
+		if mgr != nil && s.Demanded {
+			caps := s.Caps
+			if len(caps) == 0 || (len(caps) == 1 && caps[0] != TI && caps[0] != REV) {
+				caps = []fw.Capability{TI, REV}
+			}
+			goodPlug = &mocks.VerifyPlugin{Name: "p", Version: "2.0.0", Capabilities: caps, ProcessAll: true}
+			if plug != nil {
+				savedPlug = mocks.VerifyPlugin{Version: plug.Version, Capabilities: plug.Capabilities, Verdicts: plug.Verdicts, ProcessAll: plug.ProcessAll, VerifyErr: plug.VerifyErr}
+				plug.Version, plug.Capabilities, plug.Verdicts, plug.ProcessAll, plug.VerifyErr = goodPlug.Version, goodPlug.Capabilities, nil, true, nil
+			} else {
+				mgr.Plugins["p"] = goodPlug // installed now, uninstalled before the judged verification
+			}
+		}
+		_, _ = v.Verify(ctx, w.desc, w.envelope(cell{Scheme: c.Scheme, Format: c.Format, Plug: c.Plug, Crit: c.Crit}), notation.VerifierVerifyOptions{ArtifactReference: "reg.io/r@" + w.desc.Digest.String(), SignatureMediaType: forge.Formats[c.Format]})
+		// phase 2: the cell's answers
+		ts.Stores, ts.Errs, rv.Results = savedStores, savedErrs, savedRes
+		ts.Calls, rv.Calls = nil, nil
+		if mgr != nil && s.Demanded {
+			if plug != nil {
+				plug.Version, plug.Capabilities, plug.Verdicts, plug.ProcessAll, plug.VerifyErr = savedPlug.Version, savedPlug.Capabilities, savedPlug.Verdicts, savedPlug.ProcessAll, savedPlug.VerifyErr
+				plug.VerifyCalls, plug.MetadataCalls = nil, 0
+			} else {
+				delete(mgr.Plugins, "p")
+			}
+		}
+	}
 	outcome, verr := v.Verify(ctx, w.desc, w.envelope(c), notation.VerifierVerifyOptions{ArtifactReference: "reg.io/r@" + w.desc.Digest.String(), SignatureMediaType: forge.Formats[c.Format]})
 	obs.Accept = verr == nil
 	if verr != nil {
@@ -394,6 +434,9 @@ func (w *world) run(lv vt.Level, c cell) observation {
 	bad := func(key, what string) {
 		if c.Prior == 1 {
 			key += ":after-earlier-verification-on-same-verifier"
+		}
+		if c.Prior == 2 {
+			key += ":after-collaborators-changed-their-answers"
 		}
 		obs.Viol = append(obs.Viol, key+" :: "+what)
 	}
@@ -620,6 +663,8 @@ func main() {
 	for _, c := range append([]cell(nil), cells...) {
 		if d := devOf(c); d >= 1 && d <= priorMax {
 			c.Prior = 1
+			cells = append(cells, c)
+			c.Prior = 2
 			cells = append(cells, c)
 		}
 	}
